@@ -23,7 +23,7 @@ COMPONENTS = {
     'stub': ['OS thread scheduling', 'clocks', 'os.urandom', 'object store (SimStore) whose stored bytes are damaged between commands'],
 }
 ASSUMPTIONS = ['the adversary cannot compute keyed MACs (replay is under an existing name)', 'hash collisions do not occur']
-PROBES = ['same_instance_after_damage', 'same_instance_retry_after_failure', 'retry_same_cache', 'flip', 'truncate', 'extend', 'swap', 'replay', 'delete', 'pair', 'restore_raised', 'restore_ok_intact', 'restore_ok_without_damaged_snapshot', 'warm_cache']
+PROBES = ['megabyte_chunks', 'same_instance_after_damage', 'same_instance_retry_after_failure', 'retry_same_cache', 'flip', 'truncate', 'extend', 'swap', 'replay', 'delete', 'pair', 'restore_raised', 'restore_ok_intact', 'restore_ok_without_damaged_snapshot', 'warm_cache']
 TIERS = {'quick': {'budget_s': 45, 'batch': 1}, 'thorough': {'budget_s': 900, 'batch': 2}}
 
 
@@ -34,6 +34,17 @@ def gen_case(seed, tier):
     case['budget'] = 160 if tier == 'quick' else 1500
     case['damage_seed'] = rng.randrange(1 << 30)
     case['reader'] = rng.randrange(len(case['users']))
+    brng = substream(seed, 'c04-big')
+    if brng.random() < 0.04:
+        # chunk objects of several megabytes (default-sized chunks): size-dependent paths of the verification
+        case['settings']['chunking'] = {'min_length': 4_200_000, 'max_length': 5_120_000}
+        case['contents'] = [f'rand:{seed}:{4_300_000 + brng.randrange(0, 900_000)}', f'rand:{seed + 1}:{brng.randrange(1, 3000)}']
+        case['users'] = case['users'][:1]
+        case['ops'] = [{'op': 'snapshot', 'u': 0, 'files': {'big.bin': 0, 'small.bin': 1}, 'at': 1.0, 'mt': 1_500_000_000, 'note': None}]
+        case['reader'] = 0
+        case['live'], case['shared_object'], case['backend'] = [], False, None
+        case['budget'] = 16 if tier == 'quick' else 60
+        case['big'] = True
     return case
 
 
@@ -89,6 +100,9 @@ def apply(objs, dmg):
 def run_case(case):
     H = history.History(case, 'c04', ('store',))
     W = H.W
+    if case.get('big'):
+        W.env.block_size = 128_000      # (megabytes in 1-byte transfer blocks would only burn scheduler steps)
+        H.probe('megabyte_chunks')
     evaluations = 0
     digests = set()
     samples = []
